@@ -37,7 +37,7 @@ Section IdemOld.
     finalize_inputM st i m = FOk st' -> sanityM st = None -> sanityM st' = None.
   Proof.
     intros H Hs. pose proof (specM st i m) as S. rewrite H in S.
-    destruct S as (a & Hn & [[_ ->]|(Hf & s & w & _ & ->)]); auto.
+    destruct S as (a & Hn & [[_ ->]|(Hf & s & w & _ & ->)] & _); auto.
     unfold sanity_check in *. simpl. rewrite length_set_nth.
     destruct (negb (p_ntx st =? length (p_inputs st))); [discriminate|].
     destruct (sanity_inputs sig_flag sighash_ecdsa 0 (p_inputs st)) as [[? ?]|] eqn:E; [discriminate|].
@@ -47,7 +47,7 @@ Section IdemOld.
   Lemma loop_sanity m idxs : forall st, sanityM st = None -> sanityM (fst (loopM m idxs st)) = None.
   Proof.
     induction idxs as [|i r IH]; intros st Hs; simpl; auto.
-    destruct (finalize_inputM st i m) as [st1|e|] eqn:H; simpl; auto.
+    destruct (finalize_inputM st i m) as [st1|k0 e|] eqn:H; simpl; auto.
     apply IH. eapply finalize_input_sanity; eauto.
   Qed.
 
@@ -55,7 +55,7 @@ Section IdemOld.
     nth_error (p_inputs (fst (loopM m idxs st))) k = nth_error (p_inputs st) k.
   Proof.
     induction idxs as [|i r IH]; intros st k Hk; simpl; auto.
-    destruct (finalize_inputM st i m) as [st1|e|] eqn:H; simpl; auto.
+    destruct (finalize_inputM st i m) as [st1|k0 e|] eqn:H; simpl; auto.
     rewrite IH by (intro; apply Hk; right; auto).
     apply (finalize_input_other try_input _ _ _ _ k H). intro; subst; apply Hk; left; auto.
   Qed.
@@ -66,11 +66,11 @@ Section IdemOld.
     induction 1 as [|i r0 Hni Hnd IH]; intros st st' r H; simpl in *.
     - inversion H; subst; auto.
     - pose proof (specM st i m) as S.
-      destruct (finalize_inputM st i m) as [st1|e|] eqn:Hfi.
+      destruct (finalize_inputM st i m) as [st1|k0 e|] eqn:Hfi.
       + (* input i is final in st1, hence in st'; the second pass skips it *)
         assert (Hi : exists a1, nth_error (p_inputs st') i = Some a1 /\ is_final a1 = true).
         { pose proof (loop_untouched m r0 st1 i Hni) as U. rewrite H in U. simpl in U. rewrite U.
-          destruct S as (a & Ha & [[Hf ->]|(Hf & s & w & Ht & ->)]).
+          destruct S as (a & Ha & [[Hf ->]|(Hf & s & w & Ht & ->)] & _).
           - eauto.
           - exists (cleared a s w). split. simpl. eapply nth_set_nth_eq; eauto.
             eapply cleared_final; eauto. }
